@@ -83,9 +83,12 @@ inductive LexMode where
   | name (acc : List Nat)
 deriving Repr
 
-/-- `tokenize_cla`.  A variable name ends at whitespace, a parenthesis or a backslash (the ASCII
-lambda glyph, which can never be part of an identifier); the delimiter is then processed by the
-outer loop, so `x\y.y` lexes as `CName "x"`, `CLambda "y"`, `CName "y"`. -/
+/-- `tokenize_cla`.  A variable name is its first (alphabetic) character followed by the maximal
+run of ALPHANUMERIC characters; the first character that is not alphanumeric ends the name WITHOUT
+being consumed and is then processed by the outer loop like any character at top level: a glyph
+opens a binder, a parenthesis is a token, whitespace is skipped, a letter starts a new name, and
+anything else is `InvalidCharacter` with its character index.  So `x\y.y` lexes as `CName "x"`,
+`CLambda "y"`, `CName "y"`, and `x.y`, `x#`, `λx.x-` are lexical errors (at 1, 1, 4). -/
 def tokenizeClaAux (cls : CharCls) : LexMode → Nat → List Nat → Except ParseError (List CToken)
   | .top, _, [] => .ok []
   -- the inner `for` loop ends with the input: the (possibly empty, unterminated) binder is pushed
@@ -104,17 +107,21 @@ def tokenizeClaAux (cls : CharCls) : LexMode → Nat → List Nat → Except Par
     else if !first && cls.isAlnum c then tokenizeClaAux cls (.lam (name ++ [c]) false) (i + 1) cs
     else .error (.InvalidCharacter i c)
   | .name acc, i, c :: cs =>
-    -- `peek`: a delimiter ends the name and is then processed by the outer loop.
-    -- A backslash (the ASCII lambda glyph) is such a delimiter: the name ends, and the outer loop's
-    -- first arm (`'\\' | 'λ'`) starts reading a binder.  (`λ` is alphabetic and continues a name.)
-    if c == cBackslash then
+    -- `peek`: an alphanumeric character continues the name (this test comes first: `λ` is a letter
+    -- and continues a name) …
+    if cls.isAlnum c then tokenizeClaAux cls (.name (acc ++ [c])) (i + 1) cs
+    -- … any other character ends it (`break`, the character is not consumed): `CName acc` is
+    -- pushed and the outer loop processes `c` exactly as mode `.top` does (same tests, same order)
+    else if isLam c then
       (CToken.CName acc :: ·) <$> tokenizeClaAux cls (.lam [] true) (i + 1) cs
-    else if cls.isWs c then (CToken.CName acc :: ·) <$> tokenizeClaAux cls .top (i + 1) cs
     else if c == cLparen then
       (fun r => CToken.CName acc :: CToken.CLparen :: r) <$> tokenizeClaAux cls .top (i + 1) cs
     else if c == cRparen then
       (fun r => CToken.CName acc :: CToken.CRparen :: r) <$> tokenizeClaAux cls .top (i + 1) cs
-    else tokenizeClaAux cls (.name (acc ++ [c])) (i + 1) cs
+    else if cls.isWs c then (CToken.CName acc :: ·) <$> tokenizeClaAux cls .top (i + 1) cs
+    else if cls.isAlpha c then
+      (CToken.CName acc :: ·) <$> tokenizeClaAux cls (.name [c]) (i + 1) cs
+    else .error (.InvalidCharacter i c)
 
 def tokenizeCla (cls : CharCls) (s : List Nat) : Except ParseError (List CToken) :=
   tokenizeClaAux cls .top 0 s
